@@ -307,6 +307,29 @@ class C20Executor(Executor):
     def s_While(self, s, st):
         return self._keep_cut_tag(self._s_while, s, st)
 
+    def s_With(self, s, st):
+        """`with contextlib.suppress(E, ...): body` is by definition `try: body / except (E, ...): pass`"""
+        import ast as _ast
+        if len(s.items) == 1 and s.items[0].optional_vars is None and isinstance(s.items[0].context_expr, _ast.Call):
+            call = s.items[0].context_expr
+            dotted = _ast.unparse(call.func)
+            head = dotted.split(".")[0]
+            origin = self.module.imports.get(head)
+            full = (origin + dotted[len(head):]) if origin else dotted
+            if full == "contextlib.suppress" and not call.keywords and call.args and head not in self.module.functions \
+                    and all(isinstance(a, (_ast.Name, _ast.Attribute)) for a in call.args):
+                node = getattr(s, "_c20_try", None)
+                if node is None:
+                    typ = call.args[0] if len(call.args) == 1 else _ast.Tuple(elts=list(call.args), ctx=_ast.Load())
+                    handler = _ast.ExceptHandler(type=typ, name=None, body=[_ast.Pass()])
+                    node = _ast.Try(body=s.body, handlers=[handler], orelse=[], finalbody=[])
+                    for x in (handler, handler.body[0], node, typ):
+                        _ast.copy_location(x, s)
+                    _ast.fix_missing_locations(node)
+                    s._c20_try = node
+                return self.s_Try(node, st)
+        return super().s_With(s, st)
+
     def _s_while(self, s, st):
         from pyvc.symex import LoopCtx, Outcome
         spec = self.loop_spec(s)
@@ -409,7 +432,34 @@ class C20Executor(Executor):
                 if oc == "little":
                     bs = bs[::-1]
                 return [(st, VInt(z3.Concat(*bs) if len(bs) > 1 else bs[0]))]
+        if isinstance(f, VFunc) and f.how == "ext" and isinstance(f.a, str) and f.a not in self.reg.ext_models and f.a not in self.reg.fn:
+            if f.a.startswith("operator.") and f.a.split(".", 1)[1] in self.OPERATOR_BINOPS and len(args) == 2 and not kwargs:
+                return [(s_, v_) for (s_, v_) in self.binop(st, self.OPERATOR_BINOPS[f.a.split(".", 1)[1]], args[0], args[1], node)]
+            if f.a in ("itertools.chain.from_iterable", "chain.from_iterable") and len(args) == 1 and not kwargs:
+                outer = self.concrete_items(st, args[0])
+                parts = [self.concrete_items(st, a) for a in outer] if outer is not None else None
+                if parts is not None and all(p_ is not None for p_ in parts):
+                    return [(st, VTuple([x for p_ in parts for x in p_]))]
         return super().call(st, f, args, kwargs, node)
+
+    OPERATOR_BINOPS = {"xor": "BitXor", "and_": "BitAnd", "or_": "BitOr", "add": "Add", "sub": "Sub", "mul": "Mult", "floordiv": "FloorDiv",
+                       "mod": "Mod", "lshift": "LShift", "rshift": "RShift"}
+
+    def b_map(self, st, args, kwargs, node):
+        """map(f, xs, ys, ...) over iterables of known length, consumed eagerly like a generator expression"""
+        cols = [self.concrete_items(st, a) for a in args[1:]]
+        if kwargs or len(args) < 2 or any(c is None for c in cols):
+            return self.havoc_call(st, "map", args, node)
+        states = [(st, [])]
+        for row in zip(*cols):
+            nxt = []
+            for (s1, acc) in states:
+                for (s2, v) in self.call(s1, args[0], list(row), {}, node):
+                    nxt.append((s2, acc + [v]))
+            states = nxt
+            if len(states) > 8:
+                return self.havoc_call(st, "map", args, node)
+        return [(s1, VTuple(acc)) for (s1, acc) in states]
 
     def _int_to_bytes(self, st, v, args, kwargs, node):
         ln = args[0] if args else kwargs.get("length", VInt(1))
@@ -639,6 +689,16 @@ class C20Executor(Executor):
         if r is not None and r[0] == "sym":
             return [(r[1], r[2])]
         return super().e_ListComp(n, st)
+
+    def b_divmod(self, st, args, kwargs, node):
+        """divmod(a, b) == (a // b, a % b) on integers (ZeroDivisionError path from the engine's `//`)"""
+        if len(args) != 2 or kwargs or not all(isinstance(a, VInt) for a in args):
+            return self.havoc_call(st, "divmod", args, node)
+        out = []
+        for (s1, q) in self.binop(st, "FloorDiv", args[0], args[1], node):
+            r = ops.pure_binop("Mod", args[0], args[1])
+            out.append((s1, VTuple([q, r])))
+        return out
 
     def b_sum(self, st, args, kwargs, node):
         items = self.concrete_items(st, args[0])
